@@ -187,3 +187,11 @@ def cex_c20(obl, results, env):
                                                 source='search over allow-lists x senders'),
                             observed=got, replayed_on_real_code=True, reproduced=True)
     return None
+
+
+def cex_c10(obl, results, env):
+    import validate
+    try:
+        return _first_fail(validate.admission_scenarios(env))
+    except driver.Undecided:
+        return None
